@@ -6,6 +6,15 @@
     on a canonical base, for any text, any line ending and any tab width >= 1. *)
 From Tephra Require Import MetricsSpec MetricsFacts.
 
+(** What [cpos] means: bytes of the first k units, number of line endings among them, display
+    width (tab stops) of the characters since the last line ending. *)
+Theorem C19_canonical_position_meaning :
+  forall m t k,
+  cpos m t k = mkpos (ubytes m (firstn k (units m t))) (breaks (firstn k (units m t)))
+                     (width (tabw m) (last_line (firstn k (units m t)))).
+Proof. exact cpos_decl. Qed.
+Print Assumptions C19_canonical_position_meaning.
+
 Theorem C19_next_prev_roundtrip :
   forall m t, 1 <= tabw m -> wf_text t -> forall k, k < nunits m t ->
   next_position m t (cpos m t k) = Ok (Some (cpos m t (S k))) /\
